@@ -183,6 +183,11 @@ func isErrNotNil(e ast.Expr) bool {
 	return ok && b.Op == token.NEQ && isIdent(b.X, "err") && isIdent(b.Y, "nil")
 }
 
+func isErrIsNil(e ast.Expr) bool {
+	b, ok := e.(*ast.BinaryExpr)
+	return ok && b.Op == token.EQL && isIdent(b.X, "err") && isIdent(b.Y, "nil")
+}
+
 func endsWithReturn(b *ast.BlockStmt) bool {
 	if len(b.List) == 0 {
 		return false
@@ -206,6 +211,9 @@ func (f *spFunc) translate(fd *ast.FuncDecl) ([]spStep, error) {
 	var deferred []string
 	pending := -1          // index in steps of the call whose error sits in `err`
 	pendingInline := false // `err` is the result of an inlined callee (its propagating steps carry "^")
+	// chain: steps whose error is accumulated in `err` by the shape  err = a(); if err == nil { err = b() } ...:
+	// each ran only because the earlier ones succeeded, and none is examined until `return err` / `if err != nil`
+	var chain []int
 	pos := func(n ast.Node) string {
 		p := f.fset.Position(n.Pos())
 		return fmt.Sprintf("%s:%d", filepath.Base(p.Filename), p.Line)
@@ -300,7 +308,95 @@ func (f *spFunc) translate(fd *ast.FuncDecl) ([]spStep, error) {
 		return nil
 	}
 
+	// if err == nil { err = next() [; if err == nil { ... }] }: next runs only when the pending call succeeded
+	var nilChain func(s *ast.IfStmt) error
+	nilChain = func(s *ast.IfStmt) error {
+		lst := s.Body.List
+		if len(lst) == 0 || len(lst) > 2 {
+			return fmt.Errorf("%s: unsupported `if err == nil` body", pos(s.Body))
+		}
+		as, ok := lst[0].(*ast.AssignStmt)
+		if !ok || as.Tok != token.ASSIGN || len(as.Lhs) != 1 || !isIdent(as.Lhs[0], "err") || len(as.Rhs) != 1 {
+			return fmt.Errorf("%s: an `if err == nil` body must start with err = <call>", pos(s.Body))
+		}
+		call, ok := as.Rhs[0].(*ast.CallExpr)
+		if !ok {
+			return fmt.Errorf("%s: an `if err == nil` body must assign a call result to err", pos(s.Body))
+		}
+		prev := pending
+		done, err := emitCall(call, as.Lhs)
+		if err != nil {
+			return err
+		}
+		if !done || pendingInline {
+			return fmt.Errorf("%s: `if err == nil` body without a plain file-system call", pos(s.Body))
+		}
+		if len(chain) == 0 || chain[len(chain)-1] != prev {
+			chain = append(chain, prev)
+		}
+		chain = append(chain, pending)
+		if len(lst) == 2 {
+			inner, ok := lst[1].(*ast.IfStmt)
+			if !ok || !isErrIsNil(inner.Cond) || inner.Else != nil || inner.Init != nil {
+				return fmt.Errorf("%s: unsupported statement after the call in an `if err == nil` body", pos(lst[1]))
+			}
+			return nilChain(inner)
+		}
+		return nil
+	}
+	// closeChain: the accumulated err is examined (returned): every step of the chain ends the function when it fails
+	closeChain := func() {
+		for _, i := range chain {
+			steps[i].handler = rev(deferred)
+			steps[i].returns = true
+		}
+		chain = nil
+		pending = -1
+	}
+
 	for _, st := range fd.Body.List {
+		if len(chain) > 0 {
+			// an accumulated error is open: only its examination (return err / if err != nil { return }), a further
+			// `if err == nil` link, or statements without file-system calls that leave err alone may follow
+			switch s := st.(type) {
+			case *ast.ReturnStmt:
+				if len(s.Results) != 1 || !isIdent(s.Results[0], "err") {
+					return nil, fmt.Errorf("%s: an accumulated error is not returned", pos(s))
+				}
+				closeChain()
+			case *ast.IfStmt:
+				switch {
+				case isErrIsNil(s.Cond) && s.Else == nil && s.Init == nil:
+				case isErrNotNil(s.Cond) && s.Else == nil && s.Init == nil && endsWithReturn(s.Body):
+					ops, err := f.fsCallsIn(s.Body)
+					if err != nil {
+						return nil, err
+					}
+					h := append(append([]string{}, ops...), rev(deferred)...)
+					for _, i := range chain {
+						steps[i].handler = h
+						steps[i].returns = true
+					}
+					chain = nil
+					pending = -1
+					continue
+				default:
+					return nil, fmt.Errorf("%s: unsupported statement while an accumulated error is open", pos(s))
+				}
+			default:
+				ops, err := f.fsCallsIn(st)
+				if err != nil || len(ops) > 0 {
+					return nil, fmt.Errorf("%s: file-system call while an accumulated error is open (%v)", pos(st), err)
+				}
+				if as, ok := st.(*ast.AssignStmt); ok {
+					for _, l := range as.Lhs {
+						if isIdent(l, "err") {
+							return nil, fmt.Errorf("%s: err is overwritten while an accumulated error is open", pos(st))
+						}
+					}
+				}
+			}
+		}
 		switch s := st.(type) {
 		case *ast.AssignStmt:
 			if len(s.Rhs) == 1 {
@@ -355,6 +451,12 @@ func (f *spFunc) translate(fd *ast.FuncDecl) ([]spStep, error) {
 				}
 				continue
 			}
+			if isErrIsNil(s.Cond) && s.Else == nil && s.Init == nil && pending >= 0 && !pendingInline {
+				if err := nilChain(s); err != nil {
+					return nil, err
+				}
+				continue
+			}
 			if ops, err := f.fsCallsIn(s); err != nil || len(ops) > 0 {
 				return nil, fmt.Errorf("%s: file-system call under a condition the translator does not understand (%v)", pos(s), err)
 			}
@@ -387,6 +489,9 @@ func (f *spFunc) translate(fd *ast.FuncDecl) ([]spStep, error) {
 				return nil, fmt.Errorf("%s: file-system call in an unsupported statement (%v)", pos(st), err)
 			}
 		}
+	}
+	if len(chain) > 0 {
+		return nil, fmt.Errorf("%s: an accumulated error is never examined", fd.Name.Name)
 	}
 	for _, op := range rev(deferred) {
 		steps = append(steps, spStep{op: op, pos: "function end (deferred)"})
